@@ -81,7 +81,8 @@ func c08Inputs(c *c08Case, env *fw.Env, v *fw.V) {
 	t.Writes = []string{"hv", "again"}
 	n := g.Add(gen.Task, "N", "")
 	n.Headers = []gen.PropItem{{Name: "h1", Ref: "$hv.u", Value: "lit"}, {Name: "h2", Value: "const"}, {Name: "h3", Ref: "$hv.u"}}
-	n.Props = []gen.PropItem{{Name: "p1", Ref: "$hv.u"}, {Name: "pf", Ref: "$hv.u", Type: "float"}, {Name: "pi", Ref: "$hv.u", Type: "integer"}, {Name: "pb", Ref: "$hv.u", Type: "boolean"}}
+	n.Props = []gen.PropItem{{Name: "p1", Ref: "$hv.u"}, {Name: "pf", Ref: "$hv.u", Type: "float"}, {Name: "pi", Ref: "$hv.u", Type: "integer"}, {Name: "pb", Ref: "$hv.u", Type: "boolean"},
+		{Name: "po", Ref: "$hv.u", Type: "object"}, {Name: "pa", Ref: "$hv.u", Type: "array"}}
 	xs := g.Add(gen.Xor, "xs", "")
 	e := g.Add(gen.End, "end", "")
 	g.Connect(s, xm, nil)
@@ -98,7 +99,8 @@ func c08Inputs(c *c08Case, env *fw.Env, v *fw.V) {
 	}
 	perturb.Off()
 	// the values T stores, round by round (c.Seq indexes this catalogue): texts, and things that are no text
-	cat := []any{"text-a", 42, "text-b", true, "", 2.5, "text-c", 2.0, -3.0, 7, 1e6, false, 0.125}
+	cat := []any{"text-a", 42, "text-b", true, "", 2.5, "text-c", 2.0, -3.0, 7, 1e6, false, 0.125,
+		map[string]any{"k": "v", "n": 1.5, "in": map[string]any{"b": true}}, []any{1.5, "two", false}, map[string]any{}, []any{}}
 	runInst := func(label string, seq []int) bool {
 		in, err := drive.New(env.Label, defs, drive.Opts{Vars: map[string]any{"again": 0}})
 		if err != nil {
@@ -167,6 +169,10 @@ func c08Inputs(c *c08Case, env *fw.Env, v *fw.V) {
 				pname, pwant = "pi", int64(x)
 			case bool:
 				pname, pwant = "pb", x
+			case map[string]any:
+				pname, pwant = "po", x
+			case []any:
+				pname, pwant = "pa", x
 			}
 			if it, ok := props[pname]; !ok || it == nil || !reflect.DeepEqual(it.Value(), pwant) {
 				var got any
@@ -442,12 +448,12 @@ func c08Cases(tier string, seed uint64) []fw.Case {
 		}
 	}
 	// declared headers / properties of a task requested again and again in a loop
-	for a := 0; a < 13; a++ {
-		for b := 0; b < 13; b++ {
+	for a := 0; a < 17; a++ {
+		for b := 0; b < 17; b++ {
 			if a >= 7 && b < 7 && (a+b)%2 == 1 {
 				continue
 			}
-			c := c08Case{Kind: "inputs", Seq: []int{a, b, (a + b + 1) % 13}, Reps: 1}
+			c := c08Case{Kind: "inputs", Seq: []int{a, b, (a + b + 1) % 17}, Reps: 1}
 			c.Name = fmt.Sprintf("inputs/%d-%d", a, b)
 			cs = append(cs, fw.MkCase("inputs", &c))
 		}
@@ -1035,7 +1041,7 @@ func init() {
 			v.Nontrivial = true
 			return v
 		},
-		Rule:        "answer histories per request: 1..3 Do calls x sequential / concurrent behind a barrier x payload {results, data objects, both} x names {declared, undeclared, mixed} x hooks off/on (concurrent ones repeated 30/300 times), checked with a porcupine write-once-register model over the Do call/return history and the observed effective marker, plus blocked-caller census, declared-only storage, downstream visibility (gateway branch, next task's properties and data inputs) and late Do; 1..4 answers arriving after the instance's context was cancelled (none may block); a catalogue of ~100 values of every kind (integer widths, floats, strings, booleans, byte slices, nested maps / slices / structs, pointers, nil) answered as declared result and as declared data output, read back in canonical form from the variables and the next task's data inputs; error histories: handler {none, skip, exit, retry n=0..3} x success on attempt 0..4 x extra Do; retry answers whose budget differs from answer to answer (all budget sequences of length 2..3 over 0..3; the k-th failing answer with budget b re-requests only while k-1 < b) x success attempt, followed by a second always-failing task on the same token (requested 1..budget+1 times); all cases non-trivial; distinct = descriptor hash; inputs scenario with typed properties (text, float, integer, boolean) bound by reference to a stored result; object-input scenario: a stored data output read through the data input of a later task with nothing / a task / a sub-process between them, a sub-process on a parallel branch, or the storing / the reading task inside a sub-process, id = name, id differing, or read through a data object reference, three rounds in a loop",
+		Rule:        "answer histories per request: 1..3 Do calls x sequential / concurrent behind a barrier x payload {results, data objects, both} x names {declared, undeclared, mixed} x hooks off/on (concurrent ones repeated 30/300 times), checked with a porcupine write-once-register model over the Do call/return history and the observed effective marker, plus blocked-caller census, declared-only storage, downstream visibility (gateway branch, next task's properties and data inputs) and late Do; 1..4 answers arriving after the instance's context was cancelled (none may block); a catalogue of ~100 values of every kind (integer widths, floats, strings, booleans, byte slices, nested maps / slices / structs, pointers, nil) answered as declared result and as declared data output, read back in canonical form from the variables and the next task's data inputs; error histories: handler {none, skip, exit, retry n=0..3} x success on attempt 0..4 x extra Do; retry answers whose budget differs from answer to answer (all budget sequences of length 2..3 over 0..3; the k-th failing answer with budget b re-requests only while k-1 < b) x success attempt, followed by a second always-failing task on the same token (requested 1..budget+1 times); all cases non-trivial; distinct = descriptor hash; inputs scenario with typed properties (text, float, integer, boolean, object, array) bound by reference to a stored result; object-input scenario: a stored data output read through the data input of a later task with nothing / a task / a sub-process between them, a sub-process on a parallel branch, or the storing / the reading task inside a sub-process, id = name, id differing, or read through a data object reference, three rounds in a loop",
 		Exhaustive:  func(string) bool { return true },
 		Assumptions: []string{"each Do carries a unique marker for a declared field so the effective answer identifies the call that won"},
 	})
